@@ -220,6 +220,15 @@ class Check:
         """factory(ctx, tier) -> RuleBasedStateMachine subclass; quick/thorough = (max_examples, step_count)."""
         self.subs.append(Sub("machine", name, replay, factory=factory, quick=quick, thorough=thorough, shards=shards))
 
+    def fuzz(self, name, decode, quick, thorough, seeds=(), shards=4):
+        """Coverage-guided (atheris / libFuzzer) driving of body(ctx, desc): decode(fdp) -> descriptor; quick/thorough = -runs."""
+
+        def deco(fn):
+            self.subs.append(Sub("fuzz", name, fn, decode=decode, quick=quick, thorough=thorough, seeds=list(seeds), shards=shards))
+            return fn
+
+        return deco
+
     def sub(self, name):
         for s in self.subs:
             if s.name == name:
@@ -360,6 +369,8 @@ def run_sub(check, sub, tier, seed, shard, nshards, known, budget_s=None):
             # Hypothesis' shrinker needs minutes on machines whose every step evaluates frames (hard 5-minute cap);
             # generation only, then a bounded greedy deletion of operations through the replay interpreter.
             run_state_machine_as_test(hypothesis.seed(dseed)(machine), settings=_hyp_settings(n, steps, shrink=False))
+        elif sub.kind == "fuzz":
+            return _run_fuzz(check, sub, tier, dseed, shard, nshards, ctx)
         else:
             raise HarnessError(f"unknown sub-check kind {sub.kind}")
     except PropertyViolation as e:
@@ -377,6 +388,45 @@ def run_sub(check, sub, tier, seed, shard, nshards, known, budget_s=None):
         ) from None
     viols = list(enum_viols.values()) + ([viol] if viol else [])
     return ctx.summary(), viols
+
+
+def _run_fuzz(check, sub, tier, dseed, shard, nshards, ctx):
+    """atheris campaign in a child process (libFuzzer owns the process exit); results come back through files."""
+    import subprocess
+
+    from vlib import boot
+
+    runs = sub.kw[tier]
+    if tier == "thorough":
+        runs = max(1, runs // nshards)
+    summ = ctx.summary()
+    if runs <= 0:
+        return summ, []
+    if not boot.ensure_atheris():
+        summ["notes"] = {"atheris": "unavailable (offline install into .deps failed); Hypothesis sub-checks cover the same oracle"}
+        return summ, []
+    outdir = os.path.join(proc_tmp(), f"fuzz-{sub.name}-{shard}")
+    shutil.rmtree(outdir, ignore_errors=True)
+    env = dict(os.environ, PYTHONPATH=os.pathsep.join([ROOT, os.path.join(ROOT, ".deps")]))
+    r = subprocess.run(
+        [sys.executable, "-m", "vlib.fuzz_runner", "checks." + check.pid.lower(), sub.name, str(runs), str(dseed % (2**31 - 1) or 1), outdir],
+        cwd=ROOT, env=env, capture_output=True, text=True, timeout=3600,
+    )
+    spath, vpath = os.path.join(outdir, "summary.json"), os.path.join(outdir, "violation.json")
+    if not os.path.exists(spath):
+        raise HarnessError(f"{check.pid}/{sub.name}: fuzz runner produced no summary (exit {r.returncode})\n{r.stdout[-1500:]}\n{r.stderr[-1500:]}")
+    with open(spath) as f:
+        summ = json.load(f)
+    summ["shard"] = shard
+    summ.setdefault("notes", {})["atheris"] = f"libFuzzer -runs={runs} -seed={dseed % (2**31 - 1) or 1}, exit {r.returncode}"
+    viols = []
+    if os.path.exists(vpath):
+        with open(vpath) as f:
+            viols.append(json.load(f))
+    elif r.returncode != 0:
+        raise HarnessError(f"{check.pid}/{sub.name}: fuzz runner exit {r.returncode} without a recorded violation\n{r.stdout[-1500:]}\n{r.stderr[-1500:]}")
+    shutil.rmtree(outdir, ignore_errors=True)
+    return summ, viols
 
 
 def _worker(args):
